@@ -173,11 +173,10 @@ func c14sys(sc *sim.Scenario, env *sim.Env) *sim.Violation {
 			Msg: fmt.Sprintf("traced run panicked=%v (%s), untraced run panicked=%v (%s)", pA, sim.PanicString(pvA), pB, sim.PanicString(pvB))}
 	}
 	if pA {
-		if isIndexPanic(sim.PanicString(pvA)) || strings.Contains(sim.PanicString(pvA), "No backend") {
-			st.Abort("step_panic_both_worlds")
-			return nil
-		}
-		return &sim.Violation{Oracle: "run_panic", Step: -1, Msg: "RunUntil panicked in both worlds: " + sim.PanicString(pvA)}
+		// a Step that panics identically with and without tracing is C08's business
+		// ("never crashes"), whatever the panic value looks like
+		st.Abort("step_panic_both_worlds")
+		return nil
 	}
 	if d := regsA.Diff(regsB, true); d != "" || retA != retB {
 		return &sim.Violation{Oracle: "tracing_perturbs_registers", Step: -1, Msg: fmt.Sprintf("traced vs untraced final state: %s (RunUntil returned %v vs %v)", d, retA, retB)}
@@ -376,11 +375,8 @@ func c14alt(sc *sim.Scenario, env *sim.Env) *sim.Violation {
 		return &sim.Violation{Oracle: "tracing_changes_outcome", Step: -1, Msg: fmt.Sprintf("bare CPU: traced run panicked=%v (%s), untraced panicked=%v (%s)", pA, msgA, pB, msgB)}
 	}
 	if pA {
-		if isIndexPanic(msgA) {
-			st.Abort("step_panic_both_worlds")
-			return nil
-		}
-		return &sim.Violation{Oracle: "run_panic", Step: -1, Msg: "cpualt: Step panicked in both worlds: " + msgA}
+		st.Abort("step_panic_both_worlds")
+		return nil
 	}
 	if d := regsA.Diff(regsB, true); d != "" {
 		return &sim.Violation{Oracle: "tracing_perturbs_registers", Step: -1, Msg: "cpualt traced vs untraced final state: " + d}
